@@ -281,7 +281,7 @@ def run_case(case, ctx):
 
 
 def plan(tier, seed, n):
-    per = 3 if tier == 'quick' else 80
+    per = 6 if tier == 'quick' else 200
     return [{'fixed': i == 0, 'nu': per} for i in range(n)]
 
 
